@@ -37,13 +37,17 @@ def dump_yaml(doc):
     return yaml.safe_dump(doc, sort_keys=False, default_flow_style=False, width=10000)
 
 
+LAST_ERROR = [""]
+
+
 def guarded(fn):
-    """('ok', value) or ('err', ExceptionClassName)."""
+    """('ok', value) or ('err', ExceptionClassName); the message of the last error is kept in LAST_ERROR."""
     try:
         return ("ok", fn())
     except BaseException as exc:  # noqa: BLE001 - SystemExit etc. included on purpose
         if isinstance(exc, (KeyboardInterrupt, MemoryError)):
             raise
+        LAST_ERROR[0] = str(exc)
         return ("err", type(exc).__name__)
 
 
@@ -79,3 +83,32 @@ def run_op(scratch, doc, text, mode="first", addr_only=False, ret="bool", macro_
 
 def expand_macros(macros, tree):
     return guarded(lambda: MacroExpander().resolve_all_macros(macros=macros, pattern_tree=tree))
+
+
+def parser_instructions(text):
+    """The instruction list the real parser hands to a consumer (recording consumer, public parser API)."""
+    from jasm.stringify_asm.implementations.gnu_objdump.gnu_objdump_parser_manual import ObjdumpParserManual
+    from jasm.stringify_asm.abstracts.abs_observer import IConsumer
+
+    class Recorder(IConsumer):
+        def __init__(self):
+            self.insts = []
+
+        def consume_instruction(self, inst):
+            self.insts.append((inst.addr, inst.mnemonic, list(inst.operands)))
+
+        def finalize(self):
+            pass
+
+    def go():
+        r = Recorder()
+        ObjdumpParserManual().parse(text, r)
+        return r.insts
+    return guarded(go)
+
+
+def stream_of(scratch, text, config=None):
+    doc = {"pattern": ["nop"]}
+    if config:
+        doc["config"] = config
+    return run_op(scratch, doc, text, ret="stream")
